@@ -19,6 +19,7 @@ type Config struct {
 	Awkward     bool // odd and long names
 	Unpriv      bool // keep everything owner-accessible (unprivileged pass)
 	OddTimes    bool // pre-1970 / post-2038 mtimes
+	HardLinks   bool // some files are second names (hard links) of other files of the tree
 	ExtraNames  []string
 	LinkPct     int // share of nodes that are symlinks (default 18)
 	LinkIntents []string // overrides the set of link intents
@@ -88,6 +89,10 @@ func genSpec(cfg Config) *rapid.Generator[spec] {
 			}
 		default:
 			s.Kind = "file"
+		}
+		if s.Kind == "file" && cfg.HardLinks && rapid.IntRange(0, 11).Draw(t, "hardlink?") == 0 {
+			s.Intent = "hardlink"
+			s.Pick = rapid.IntRange(0, 1000).Draw(t, "hlpick")
 		}
 		switch s.Kind {
 		case "file":
@@ -223,7 +228,30 @@ func build(specs []spec, cfg Config) fsx.Tree {
 			n.Target = s.Intent + "\x00" // rendered below
 			n.Mode = uint32(s.Pick)
 		}
+		if s.Kind == "file" && s.Intent == "hardlink" {
+			n.Target = "\x00hardlink"
+			n.Sec = int64(s.Pick)
+		}
 		nodes = append(nodes, n)
+	}
+	// second names: a file marked as a hard link becomes one if an ordinary file precedes it
+	{
+		var plain []string
+		for i := range nodes {
+			n := &nodes[i]
+			if n.Kind != "file" {
+				continue
+			}
+			if n.Target == "\x00hardlink" {
+				pick := int(n.Sec)
+				n.Target, n.Sec = "", 1500000000
+				if len(plain) > 0 {
+					n.Kind, n.Target, n.Content, n.Mode, n.Sec, n.Nsec = "hardlink", plain[pick%len(plain)], "", 0, 0, 0
+				}
+				continue
+			}
+			plain = append(plain, n.Path)
+		}
 	}
 	var files, ds, links []string
 	for _, n := range nodes {
